@@ -75,7 +75,10 @@ RecordLoop:
 	for i := 0; i < numRecords; i++ {
 		hash := uint64(0)
 		for _, field := range p.options.FieldList {
-			hash ^= fieldToValues[field][i].Hash()
+			// Combine order-dependently: a plain XOR gives (a, a) and (b, b), or
+			// (a, b) and (b, a), the same combination, so distinct tuples were
+			// deduplicated against each other.
+			hash = hash*1099511628211 + fieldToValues[field][i].Hash()
 
 			if fieldToValues[field][i].Dtype == sutils.SS_DT_BACKFILL ||
 				fieldToValues[field][i].Dtype == sutils.SS_INVALID {
